@@ -75,10 +75,10 @@ def main():
         meta["confirmed"]["tests_tail"] = out.strip().splitlines()[-1] if out.strip() else ""
         shutil.copy(demo, os.path.join(wt, "demo.py"))
         env = dict(os.environ, PYTHONPATH=wt, PYTHONDONTWRITEBYTECODE="1")
-        rc1, out1 = sh("timeout 120 /venv/bin/python demo.py", cwd=wt, env=env)
+        rc1, out1 = sh("timeout 900 /venv/bin/python demo.py", cwd=wt, env=env)
         meta["confirmed"]["demo_fails_with_patch"] = rc1 != 0
         sh(f"git apply -R {patch}", cwd=wt)
-        rc2, out2 = sh("timeout 120 /venv/bin/python demo.py", cwd=wt, env=env)
+        rc2, out2 = sh("timeout 900 /venv/bin/python demo.py", cwd=wt, env=env)
         meta["confirmed"]["demo_passes_without_patch"] = rc2 == 0
         meta["confirmed"]["demo_output_with_patch"] = out1[-400:]
     finally:
